@@ -10,7 +10,7 @@ From CG Require Import Proofs.RxLang Proofs.Glushkov Proofs.SubsetStmt Proofs.Su
 From CG Require Import Proofs.LangJudge Proofs.C02Lang.
 From CG Require Import Model.Minimize Spec.DfaEquiv Spec.MinimizeSpec.
 From CG Require Import Proofs.Useful Proofs.RegexFuel Proofs.SubsetFuel Proofs.TreeFacts Proofs.CheckTree.
-From CG Require Import Proofs.WfTrim Proofs.C02Total Proofs.RegexNoPanic Proofs.C02Final.
+From CG Require Import Proofs.WfTrim Proofs.C02Total Proofs.RegexNoPanic Proofs.C02Final Proofs.DistributeLits.
 
 (** (a) L-glushkov for the model's tables: for the tree [t] of an expression (n-ary [Cat] with the
     skip-nullable loop, [Or], [Many1 x = Cat [x; Star x]] sharing [x]) and its end marker [e], a
@@ -245,6 +245,17 @@ Check C02_check_tree :
     levels_ok 0 (v_expr v) = true /\
     (grammar_alts_nonempty g = true -> alts_nonempty (v_expr v) = true).
 Print Assumptions C02_check_tree.
+
+(** Descriptions through the checker's distribution pass: literals keep their order and texts, a
+    literal keeps the description written on it, and a literal without one receives nothing, or a
+    description written behind an enclosing expression: none is invented, none is moved off its
+    literal. *)
+Theorem C02_distribute_lits :
+  forall e, Forall2 (lit_ok None (dd_descrs e)) (lits e) (lits (distribute_descriptions e)).
+Proof. exact distribute_descriptions_lits. Qed.
+Check C02_distribute_lits :
+  forall e, Forall2 (lit_ok None (dd_descrs e)) (lits e) (lits (distribute_descriptions e)).
+Print Assumptions C02_distribute_lits.
 
 (** Every position is useful: from each one a chain of followpos edges leads to the end marker. *)
 Theorem C02_useful_positions :
